@@ -48,6 +48,9 @@ def run_checks_locked(patch, checks, three_way=False):
             st, so = run("git status --porcelain --untracked-files=no", "/repo")
             if rc != 0 or any(l[:2] in ("UU", "AA", "DU", "UD") for l in so.splitlines()):
                 return "stale"
+            rc3, dd = run("git diff HEAD --stat", "/repo")
+            if not dd.strip():
+                return "stale"
             rc, o = run("cargo check -q --offline -p darling_core 2>&1 | tail -3", "/repo", {"CARGO_TARGET_DIR": "/var/tmp/mutsweep-target", "RUSTFLAGS": "-Awarnings"})
             if "error" in o:
                 return "stale"
